@@ -15,3 +15,4 @@ import Dsi.Props.Copy
 import Dsi.Props.IOView
 import Dsi.Props.C10
 import Dsi.Props.C16
+import Dsi.Props.C05
